@@ -372,6 +372,16 @@ def part_change(args):
         elif scenario == "start-between":
             prot.announcer.start()
             want = [0, 3]
+        elif scenario in ("announcer-stopped-right-after", "service-withdrawn-right-after"):
+            # the Subscribe was received by a running instance; what happens to the instance afterwards does not take the
+            # answer back
+            if scenario == "announcer-stopped-right-after":
+                prot.announcer.stop()
+            else:
+                prot.announcer.stop_announce_service(prot.announcer.announcing_services[0])
+            second["entries"] = []
+            second["session"] = 2
+            want = [3]
         elif scenario == "reboot-evidence-subscribe":
             second["session"] = 1  # reboot flag set, session id not increased: the sender rebooted
             want = [3, 3]
@@ -496,7 +506,8 @@ def check(ctx):
     pj = [(name, s, s2, reject, col) for name in ("running", "three", "stopped", "wild-instance")
           for reject in (0, 1) for col in (0, C)]
     out2 = core.pmap(part_pairs, pj, 1) + core.pmap(part_shared, pj, 1)
-    out2 += core.pmap(part_change, [(s, s2, sc, gap) for sc in ("reject-then-accept", "accept-then-reject", "start-between", "reboot-evidence-subscribe",
+    out2 += core.pmap(part_change, [(s, s2, sc, gap) for sc in ("reject-then-accept", "accept-then-reject", "start-between", "announcer-stopped-right-after",
+                                               "service-withdrawn-right-after", "reboot-evidence-subscribe",
                                                "reboot-evidence-empty", "reboot-evidence-multicast-empty")
                                     for gap in (0, C / 4, C / 2, C - 2.0 ** -10)], 4)
     out2 += core.pmap(part_neighbours, pj, 1)
